@@ -110,13 +110,16 @@ let rel_lossy_conv (fs : string list) : string =
   let back = L.map rel_s flat in
   let et = L.map (fun e -> hx (print_entry dv_print e)) v in
   let eb = L.map entry_s v in
-  Printf.sprintf "lt=%s|back=%s|ll=%s|et=%s|eb=%s" (cat "," lt) (cat "&" back) (cat "&" back) (cat "," et) (cat "&" eb)
+  Printf.sprintf "lossy=%s|lt=%s|back=%s|ll=%s|et=%s|eb=%s" (cat "," lt) (cat "," lt) (cat "&" back) (cat "&" back) (cat "," et) (cat "&" eb)
 
 (* stream debversion: fields = [hex input] *)
 let debversion (fs : string list) : string =
   match dv_parse (str_of_hex (L.nth fs 0)) with
-  | Some v -> Printf.sprintf "v=%s|p=%s" (ver_s v) (hx (dv_print v))
-  | None -> "v=ERR|p=-"
+  | Some v ->
+    let p = dv_print v in
+    let again = (match dv_parse p with Some w -> bool_s (ver_s w = ver_s v) | None -> "0") in
+    Printf.sprintf "v=%s|p=%s|again=%s" (ver_s v) (hx p) again
+  | None -> "v=ERR|p=-|again=-"
 
 let () =
   register "rel-lossy" (rel_lossy fixed);
